@@ -57,6 +57,10 @@ void harness(void)
 {
 	struct rrulsp_s rr = {.freq = (echs_freq_t)FREQ, .count = -1, .inter = INTER, .until = echs_max_instant()};
 	sym_load();
+#if defined FIXDATE
+	/* quick-tier slice: the date of DTSTART is a constant (time of day symbolic) */
+	in.y = FIXDATE / 10000, in.m = FIXDATE / 100 % 100, in.d = FIXDATE % 100;
+#endif
 #if defined FIXYM
 	/* quick-tier slice: year and month of DTSTART are constants (day and time of day symbolic) */
 	in.y = FIXYM / 100, in.m = FIXYM % 100;
